@@ -285,7 +285,10 @@ def _child(mname, seed):
         order = list(inspect.signature(fn).parameters)
     except Exception:
         order = None
-    for v in ("A", "A-loggrid"):
+    # every variant is the FIRST model built in some fresh interpreter (rotation by hash seed), so a
+    # module-level cache cannot contaminate all executions of a variant in the same way
+    k = int(os.environ.get("PYTHONHASHSEED", "0") or 0) % len(VARIANTS)
+    for v in VARIANTS[k:] + VARIANTS[:k]:
         ds, dsim = _variant_run(v, seed)
         out[f"variant|{v}|solve"] = ds
         out[f"variant|{v}|simulate+targets"] = dsim
